@@ -195,9 +195,60 @@ pub fn one_run(seed: u64, run: u64, pools: &Pools, deliveries: usize) -> RunOutc
     if let Some((class, detail)) = teardown_probe(&mut rng, pools, &mut st) {
         out.violations.push(Violation { property: PROP, class, detail, replay: json!({"kind": "rerun"}), run });
     }
+    // resource exhaustion (every fifth run): the decoders and verify in a process that cannot map any more
+    // memory - and therefore cannot start a thread either
+    if run % 5 == 0 {
+        if let Some((class, detail)) = exhaustion_probe(&mut rng, pools, &mut st) {
+            out.violations.push(Violation { property: PROP, class, detail, replay: json!({"kind": "rerun"}), run });
+        }
+    }
     st.log_hash = log.hash;
     out.stats = st;
     out
+}
+
+/// Fault F1: a forked child of this run lowers its address-space limit to what it already uses plus 2 MiB,
+/// then calls the three decoders and verify on well-formed inputs. Running out of memory inside an
+/// allocation aborts the process (the platform's behaviour, not a panic of the library): a child that
+/// dies is inconclusive. A child that survives must report that nothing unwound.
+fn exhaustion_probe(rng: &mut Prng, pools: &Pools, st: &mut Stats) -> Option<(String, String)> {
+    let n = if rng.chance(1, 2) { 512 } else { 1024 };
+    let (msg, sig, pk, sk) = if n == 512 {
+        let k = rng.pick(&pools.p512.keys);
+        let (m, s) = rng.pick(&k.sigs).clone();
+        (m, s, k.pk_bytes.clone(), k.sk_bytes.clone())
+    } else {
+        let k = rng.pick(&pools.p1024.keys);
+        let (m, s) = rng.pick(&k.sigs).clone();
+        (m, s, k.pk_bytes.clone(), k.sk_bytes.clone())
+    };
+    st.inc("fault.F1_address_space_exhausted");
+    let r = crate::isolate::isolated(
+        move || {
+            let pages: u64 = std::fs::read_to_string("/proc/self/statm").ok().and_then(|s| s.split_whitespace().next().and_then(|x| x.parse().ok())).unwrap_or(0);
+            let lim = pages * 4096 + (2 << 20);
+            let rl = libc::rlimit { rlim_cur: lim, rlim_max: libc::RLIM_INFINITY };
+            unsafe {
+                libc::setrlimit(libc::RLIMIT_AS, &rl);
+            }
+            let d = |target: Target, bytes: &Vec<u8>| Delivery { n, target, bytes: bytes.clone(), msg: msg.clone(), pk: pk.clone(), pristine: None, faults: vec![], origin: "exhaustion".into(), detail: String::new() };
+            for (what, del) in [("SecretKey::from_bytes", d(Target::Sk, &sk)), ("PublicKey::from_bytes", d(Target::Pk, &pk)), ("Signature::from_bytes", d(Target::Sig, &sig)), ("from_bytes+verify", d(Target::Verify, &sig))] {
+                if let Err(u) = guarded(|| dl::execute_dyn(&del)) {
+                    return format!("{}: {}", what, u.signature()).into_bytes();
+                }
+            }
+            Vec::new()
+        },
+        60,
+    );
+    match r {
+        Ok(b) if b.is_empty() => None,
+        Ok(b) => Some((format!("unwind when the address space is exhausted (variant {})", n), String::from_utf8_lossy(&b).to_string())),
+        Err(_) => {
+            st.inc("inconclusive.exhaustion_probe_died");
+            None
+        }
+    }
 }
 
 /// What a destructor of an application thread-local does with the library while its thread exits.
